@@ -7,6 +7,7 @@ ta/ma/nq in a custom registry plus real special units) or "#<i>" = row i of the 
 Python only builds the operands, makes the call and projects the result; no verdict is computed here."""
 
 import operator
+import re
 
 _G = {}
 
@@ -63,6 +64,76 @@ def setup(common=None):
 
 BASE = {0: (3.0, 2.5), 1: (2.0, 5.0)}
 
+_DER = re.compile(r"^(la|lb)\^(-?\d+)/(\d+)(?:\.ta\^(-?\d+)/(\d+))?$")
+
+
+def _der_exps(name):
+    """Exponents of a derived unit name of Ufunc.tla (DName): '<la|lb>^p/q[.ta^r/s]' -> (base, p, q, r, s) or None."""
+    m = _DER.match(name)
+    if not m:
+        return None
+    base, p, q, r, s = m.group(1), int(m.group(2)), int(m.group(3)), int(m.group(4) or 0), int(m.group(5) or 1)
+    return base, p, q, r, s
+
+
+def _unit(name):
+    """The unit object for a name of the alphabet; derived units (rational powers of the model base units) are built by
+    unit algebra on first use and registered for the projection of results."""
+    units = _G["units"]
+    if name in units:
+        return units[name]
+    e = _der_exps(name)
+    if e is None:
+        raise KeyError(name)
+    base, p, q, r, s = e
+    u = units[base] ** (p / q) if p else None
+    if r:
+        t = units["ta"] ** (r / s)
+        u = t if u is None else u * t
+    units[name] = u
+    _G["syms"][name] = str(u.expr)
+    _G["byexpr"][str(u.expr)] = name
+    return u
+
+
+def _computed_unit(name):
+    """h = 'computed': the unit object a computation on QUANTITIES of the base units leaves behind - np.cbrt / np.sqrt /
+    a float power for roots, 1/x, x*x, x/y, x*y - instead of one built by unit algebra.  Base names keep their object."""
+    np = _G["np"]
+    e = _der_exps(name)
+    if e is None:
+        return _G["units"][name]
+    _unit(name)  # registers the spelling for the projection of results
+    base, p, q, r, s = e
+    x = _G["ua"](np.array([1.0, 1.0]), _G["units"][base])
+    res = None
+    if p:
+        if p == -1:
+            res = 1.0 / x
+        elif p == 2:
+            res = x * x
+        elif p != 1:
+            res = x**p
+        else:
+            res = x
+        if q == 2:
+            res = np.sqrt(res)
+        elif q == 3:
+            res = np.cbrt(res)
+        elif q != 1:
+            res = res ** (1.0 / q)
+    if r:
+        y = _G["ua"](np.array([1.0, 1.0]), _G["units"]["ta"])
+        if s != 1:
+            y = y ** (1.0 / s)
+        if res is None:
+            res = 1.0 / y if r < 0 else y
+        else:
+            res = res / y if r < 0 else res * y
+        if abs(r) != 1:
+            raise ValueError(name)
+    return res.units
+
 
 def _other_unit(n):
     u = _G["units"][n]
@@ -77,7 +148,7 @@ def mk(kind, n, pos, unit=None):
     if unit is not None:
         u = unit
     elif kind in ("q", "a", "az", "c", "lq", "lqm", "tq", "tqa", "tlq", "tlqm", "lqm3", "lzq", "lbq", "lqb", "e0", "e02", "e20", "a1", "q0a"):
-        u = _G["units"][n]
+        u = _unit(n)
     # size / shape classes (Ufunc.tla: ShapeKinds)
     if kind == "e0":
         return ua(np.array([], dtype=float), u)
@@ -440,10 +511,17 @@ def _history_units(case):
     return u0, u1
 
 
+BARE = ("bs", "ba", "bl", "z", "za", "zl", "ts", "ds", "nz", "ns", "is", "ta", "tm", "t32", "tl", "nza", "na", "be", "bel")
+
+
 def observe(case):
     hist = case.get("h", "none") != "none"
     _G["hnames"] = None
-    if hist:
+    if case.get("h") == "computed":
+        # derived units: the unit objects come out of computations on quantities (Ufunc.tla / MC_C01 DNext)
+        hu0 = _computed_unit(case["n0"]) if case["k0"] not in BARE else None
+        hu1 = _computed_unit(case["n1"]) if case["k1"] not in BARE else None
+    elif hist:
         hu0, hu1 = _history_units(case)
         _G["hnames"] = [(hu0, case["n0"]), (hu1, case["n1"])]
     else:
@@ -462,17 +540,17 @@ def _observe(case, hu0, hu1):
     if fam in ("ufunc", "arrfn", "setitem"):
         x0 = mk(case["k0"], case["n0"], 0, hu0)
         if fam == "arrfn" and case["op"] == "fill_diagonal":
-            x0 = _G["ua"](np.array([[3.0, 2.5], [2.5, 3.0]]), hu0 if hu0 is not None else units[case["n0"]])
+            x0 = _G["ua"](np.array([[3.0, 2.5], [2.5, 3.0]]), hu0 if hu0 is not None else _unit(case["n0"]))
         x1 = mk(case["k1"], case["n1"], 1, hu1)
         ops = [x0, x1]
     elif fam == "conv":
         x0 = mk(case["k0"], case["n0"], 0, hu0)
-        tgt = hu1 if hu1 is not None else units[case["n1"]]
+        tgt = hu1 if hu1 is not None else _unit(case["n1"])
         x1 = tgt if case["form"] == "obj" else _G["syms"][case["n1"]]  # the symbol, not str(unit): str(delta_degC) does not parse back (C20)
         ops = [x0]
     else:  # unitop
-        x0 = units[case["n0"]]
-        x1 = units[case["n1"]]
+        x0 = hu0 if hu0 is not None else _unit(case["n0"])
+        x1 = hu1 if hu1 is not None else _unit(case["n1"])
         ops = []
     before = [snap(o) for o in ops]
     ubefore = (str(x0), str(x1)) if fam == "unitop" else None
